@@ -43,22 +43,39 @@ def rule_alignment(ctx: Ctx) -> None:
     m = repo.module(ATS)
     fn = repo.anchor(ATS, "AlternateTargetSolver.solve")
     ctx.touch(m, fn)
+    # the list of LC graphs is whatever name receives the orbit explorers' results
+    EXPLORERS = {"rgs_orbit_finder", "linear_partial_orbit", "depth_first_orbit", "lc_orbit_finder"}
+    lcg = set()
+    for n in ast.walk(fn):
+        if isinstance(n, ast.Assign) and len(n.targets) == 1 and isinstance(n.targets[0], ast.Name):
+            v = n.value
+            while isinstance(v, ast.Subscript):
+                v = v.value
+            if isinstance(v, ast.Call) and call_name(v) in EXPLORERS:
+                lcg.add(n.targets[0].id)
+    if len(lcg) != 1:
+        raise AnalysisError(f"solve(): the list receiving the orbit explorers' results is not unique ({sorted(lcg)})")
+    LCG = next(iter(lcg))
     loops = []
     for n in ast.walk(fn):
         if not isinstance(n, ast.For):
             continue
-        if isinstance(n.target, ast.Name) and isinstance(n.iter, ast.Name) and n.iter.id == "lc_graphs":
+        if isinstance(n.target, ast.Name) and isinstance(n.iter, ast.Name) and n.iter.id == LCG:
             loops.append((n, n.target.id))
-        elif (isinstance(n.iter, ast.Call) and call_name(n.iter) == "enumerate" and n.iter.args and norm(n.iter.args[0]) == "lc_graphs"
+        elif (isinstance(n.iter, ast.Call) and call_name(n.iter) == "enumerate" and n.iter.args and norm(n.iter.args[0]) == LCG
               and isinstance(n.target, ast.Tuple) and len(n.target.elts) == 2 and isinstance(n.target.elts[1], ast.Name)
               and any(isinstance(c, ast.Call) and call_attr(c) == "lc_check" for c in ast.walk(n))):
             loops.append((n, n.target.elts[1].id))
     if len(loops) != 1:
-        raise AnalysisError("solve(): the loop over lc_graphs was not found")
+        raise AnalysisError("solve(): the loop over the LC graphs was not found")
     loop, loop_var = loops[0]
+    # per-LC-graph result lists: locals set to [] in the enclosing iso-graph loop and appended to in this loop
+    encl = [n for n in ast.walk(fn) if isinstance(n, ast.For) and n is not loop and any(x is loop for x in ast.walk(n))]
+    fresh = {n.targets[0].id for e in encl for n in ast.walk(e) if isinstance(n, ast.Assign) and len(n.targets) == 1 and isinstance(n.targets[0], ast.Name)
+             and isinstance(n.value, ast.List) and not n.value.elts}
     appended = {}
     for c in calls_in(loop):
-        if call_attr(c) == "append" and isinstance(c.func.value, ast.Name) and c.func.value.id.startswith("lc_"):
+        if call_attr(c) == "append" and isinstance(c.func.value, ast.Name) and c.func.value.id in fresh:
             appended.setdefault(c.func.value.id, []).append(c)
     if len(appended) < 2:
         raise AnalysisError("solve(): circuit / score list appends not found")
@@ -79,7 +96,7 @@ def rule_alignment(ctx: Ctx) -> None:
                 and norm(n.iter.args[0]) in appended and isinstance(n.target, ast.Tuple):
             i = norm(n.target.elts[0])
             body = norm(ast.Module(body=n.body, type_ignores=[]))
-            if f"lc_graphs[{i}]" in body and any(f"{k}[{i}]" in body for k in appended if k != norm(n.iter.args[0])):
+            if f"{LCG}[{i}]" in body and any(f"{k}[{i}]" in body for k in appended if k != norm(n.iter.args[0])):
                 ok = True
                 ctx.ok("flow.exactly-once", m, n, what="results indexed by one common index")
     if not ok:
